@@ -94,7 +94,10 @@ type Pipe struct {
 	released bool
 	openAt   time.Time
 	Closes   int
-	OpenErr  error
+	// Opens counts Open calls: a second session that a driver refuses without ever touching the
+	// transport leaves it unchanged
+	Opens   int
+	OpenErr error
 
 	Log []Event
 
@@ -135,6 +138,7 @@ func (p *Pipe) Open(a *transport.Args) error {
 	p.args = a
 	p.openAt = time.Now()
 	p.opened = true
+	p.Opens++
 	p.log("open", nil)
 
 	if p.OpenErr != nil {
